@@ -1,5 +1,5 @@
 (* Properties/C10.v — C10: blank = absent = GTFS default; fill-in and inheritance rules apply, nothing else. *)
-From GV Require Import Base.Prelude Model.Realtime Model.Static Proofs.StaticProofs Proofs.PresentProofs Gen.Enums.
+From GV Require Import Base.Prelude Model.Realtime Model.Static Proofs.StaticProofs Proofs.PresentProofs Gen.Enums Proofs.RealtimeProofs Proofs.TimeProofs.
 
 (* the three column readers cannot tell a present-but-blank cell from an absent column - every row loop reads rows only through them *)
 Theorem C10_blank_is_absent : forall c0 v c d,
@@ -50,3 +50,13 @@ Print Assumptions C10_blank_cell_is_dropped_column.
 Theorem C10_row_loops_read_squashed_views : forall pf stops trips v v', same_view v v' -> stop_time_row pf stops trips v = stop_time_row pf stops trips v'.
 Proof. exact stop_time_row_same. Qed.
 Print Assumptions C10_row_loops_read_squashed_views.
+
+(* ---- a time that is "given" is given whatever white space surrounds it: for every run of white-space characters
+   (unicode.IsSpace: ASCII or NO-BREAK SPACE, NEL, the U+2000 block, IDEOGRAPHIC SPACE, ...) before and after, the padded
+   HH:MM:SS cell is that many seconds - so a one-sided stop time whose only time is padded is still filled in from it ---- *)
+Theorem C10_padded_time_is_given : forall ws1 ws2 h m s, spaces ws1 -> spaces ws2 -> 0 <= h < 100 -> 0 <= m < 100 -> 0 <= s < 100 ->
+  parse_gtfs_time (string_of_list_ascii ws1 ++ hms h m s ++ string_of_list_ascii ws2) = Some (((h * 60 + m) * 60 + s) * 1000000000).
+Proof. exact parse_gtfs_time_padded. Qed.
+Print Assumptions C10_padded_time_is_given.
+Example C10_padding_example : spaces (la (String "194" (String "160" (String "009" (String "227" (String "128" (String "128" ""))))))).
+Proof. apply (sp_cons [_; _]); [apply sc_two; reflexivity|]. apply (sp_cons [_]); [apply sc_ascii; reflexivity|]. apply (sp_cons [_; _; _] []); [apply sc_three; reflexivity|constructor]. Qed.
